@@ -17,6 +17,11 @@ def main():
     rec = runner.run_task(payload["harness"], payload["shape"], kind="float", env=payload["env"],
                           wanted=payload["obligation"])
     out = {"verdict": "obligation-not-reached", "task_status": rec["status"], "error": rec.get("error")}
+    if payload["obligation"] == "returns-normally":
+        rs = [r for r in rec["results"] if r["name"] == "returns-normally"]
+        print(json.dumps({"verdict": "native-disagrees-with-spec" if rs else "native-agrees-with-spec",
+                          "detail": rs[0]["detail"][:1500] if rs else "the unmodified code returned normally"}))
+        return
     h = runner.load_harness(payload["harness"])
     tol = getattr(h, "tol", 1e-8)
     for r in rec["results"]:
@@ -36,7 +41,7 @@ def main():
 
             g, e = cv(r["got"]), cv(r["exp"])
             scale = max(abs(e), abs(g), 1)
-            bad = abs(g - e) > tol * scale
+            bad = not (abs(g - e) <= tol * scale)  # also true for nan / inf
             out = {"verdict": "native-disagrees-with-spec" if bad else "native-agrees-with-spec",
                    "native": r["got"], "spec": r["exp"], "tolerance": tol}
         elif r["status"] == "failed":
